@@ -122,7 +122,8 @@ class V:
     def foreign(self, layer, line, mode, observed):
         """an implementation-side PANIC / HANG outside the modelled stages"""
         cls = known_foreign(line)
-        if mode == "PANIC" and "subst" in cls and ("core.rs" in observed or "types.rs" in observed or observed == "PANIC"):
+        if mode == "PANIC" and "subst" in cls and (("the len is 0 but the index is 0" in observed and
+                                                      ("src/core.rs" in observed or "src/types.rs" in observed)) or observed == "PANIC"):
             # the inner line of a substitution plans a command without words: the own class, reached through run_pipeline
             if self.hit("empty-command-substitution", "e.g. %r -> PANIC (%s)" % (line, layer)):
                 return
@@ -367,8 +368,8 @@ def run_l2_one(ctx, work, ix, line):
             rc, out, err = pr.returncode, pr.stdout.decode("utf-8", "replace"), pr.stderr.decode("utf-8", "replace")
         except subprocess.TimeoutExpired as ex:
             rc, out, err = "TIMEOUT", (ex.stdout or b"").decode("utf-8", "replace"), (ex.stderr or b"").decode("utf-8", "replace")
-        m = re.search(r"panicked at ([^\n]*)", err)
-        res[mode] = {"rc": rc, "panic": m.group(1)[:80] if m else None, "sentinel": "C05-SENTINEL" in out}
+        m = re.search(r"panicked at ([^\n]*)\n?([^\n]*)", err)
+        res[mode] = {"rc": rc, "panic": (m.group(1)[:80] + " " + m.group(2)[:80]) if m else None, "sentinel": "C05-SENTINEL" in out}
     shutil.rmtree(d, ignore_errors=True)
     return res
 
@@ -428,7 +429,10 @@ def layer2(ctx, res, vv, work):
         # the script path rewrites the line (escapes, $N arguments: C15/C16) before the pure stages see it, so the model's
         # prediction from the -c path does not apply; a wordless command needs a redirection sign in any case
         script_only = (detail.startswith("script:") or not o.startswith("segs=")) and ("<" in s or ">" in s)
-        at_site = "core.rs:6" in detail or "types.rs:232" in detail or "panicked at None" in detail   # None: the stage's stderr was redirected
+        # the look-up sites: an index [0] into an empty token vector in core.rs (try_run_func) / types.rs (is_builtin);
+        # line numbers move with every commit, so the file and the message are tested. None: the stage's stderr was redirected
+        at_site = (("src/core.rs" in detail or "src/types.rs" in detail) and "the len is 0 but the index is 0" in detail) \
+            or "panicked at None" in detail
         if mode in ("PANIC", "PANIC-CHILD") and (pred or script_only) and at_site:
             if vv.hit("empty-command", "e.g. %r through the real binary: %s" % (s, detail)):
                 continue
